@@ -235,6 +235,33 @@ let rec bits_of_bytes (bs : n list) : bool list =
 (* audit verification as the code does it now; flipped by --no-prefix-free-check *)
 let pf_check = ref true
 
+(* ---- store level ---- *)
+let parse_olabel s = if s = "-" then None else
+    (match String.split_on_char '/' s with [h; l] -> Some (label h l) | _ -> failwith "olabel")
+let next_snode c =
+  let le = n_of_dec (next c) in let mde = n_of_dec (next c) in let ty = next c in
+  let l = parse_olabel (next c) in let r = parse_olabel (next c) in let h = next_bytes c in
+  { sn_le = le; sn_mde = mde; sn_leaf = (ty = "L"); sn_left = l; sn_right = r; sn_hash = h }
+let next_srec c =
+  let lab = next_label c in let latest = next_snode c in
+  let prev = (match next c with "P" -> Some (next_snode c) | _ -> None) in
+  { sr_label = lab; sr_latest = latest; sr_prev = prev }
+let next_srecs c = let k = int_of_string (next c) in List.init k (fun _ -> next_srec c)
+(* prints the stored fields of the nodes the model's version selection hands out *)
+let rec ser_view get e l is_root =
+  match node_at get l e with
+  | SNotFound -> "- "
+  | SOther -> "ERR "
+  | SOk n ->
+    if n.sn_leaf then Printf.sprintf "L %s %s %s " (fmt_label l) (hex_of_bytes n.sn_hash) (dec_of_n n.sn_le)
+    else
+      let sub = function None -> "- " | Some cl -> ser_view get e cl false in
+      Printf.sprintf "%s %s %s %s %s %s%s" (if is_root then "R" else "I") (fmt_label l) (dec_of_n n.sn_le) (dec_of_n n.sn_mde)
+        (hex_of_bytes n.sn_hash) (sub n.sn_left) (sub n.sn_right)
+let contains_sub s sub =
+  let n = String.length s and m = String.length sub in
+  let rec go i = i + m <= n && (String.sub s i m = sub || go (i + 1)) in go 0
+
 let answer (c : cur) : string =
   match next c with
   | "is_prefix" -> let a = next_label c in let b = next_label c in if is_prefix_of a b then "1" else "0"
@@ -329,6 +356,7 @@ let answer (c : cur) : string =
      | DErrDuplicate -> "err D"
      | DMissingVrf -> "MISSING-VRF"
      | _ -> "err O")
+  | "dtomb" -> let l = hb_of (next c) in let cut = n_of_dec (next c) in dst := d_tombstone !dst l cut; "ok"
   | "state" -> ser_state !dst
   | "specroot" -> let cfg = cfg_of (next c) in let k = int_of_string (next c) in
     let ls = List.init k (fun _ -> let l = next_bytes c in let v = next_bytes c in let e = n_of_dec (next c) in
@@ -356,6 +384,20 @@ let answer (c : cur) : string =
     (match audit !dir_cfg !dst s0 e0 with DOk p -> "ok " ^ ser_audit p | _ -> "err")
   | "vaudit" -> let cfg = cfg_of (next c) in let k = int_of_string (next c) in let hs = List.init k (fun _ -> next_bytes c) in
     let p = next_audit c in if audit_verify_gen cfg !pf_check hs p then "1" else "0"
+  | "cshape" -> let e = n_of_dec (next c) in let base = next_srecs c in let batch = next_srecs c in
+    let get = of_list base in if List.for_all (fun r -> commit_shape get e r) batch then "1" else "0"
+  | "viewtree" -> let e = n_of_dec (next c) in let recs = next_srecs c in
+    let get = of_list recs in
+    let root = { lval = List.init 32 (fun _ -> N0); llen = N0 } in
+    let s = ser_view get e root true in
+    let verr = (match view (nat_of_int 300) get e root with VErr -> true | VTree _ -> false) in
+    if contains_sub s "ERR" || verr then (if contains_sub s "ERR" && verr then "ERR" else "ERR-MISMATCH") else String.trim s
+  | "c12" -> let nt = int_of_string (next c) in let e0 = n_of_dec (next c) in let sch = next c in
+    let sched = List.init (String.length sch) (fun i -> nat_of_int (Char.code sch.[i] - 48)) in
+    (* all tasks reach the mutex in spawn order before the schedule starts *)
+    let pre = List.init nt nat_of_int in
+    let s = Model.run true e0 (pre @ sched @ List.concat (List.init 8 (fun _ -> pre))) in
+    String.concat " " (List.map dec_of_n (Model.results s (nat_of_int nt)))
   | "rebuild" -> let cfg = cfg_of (next c) in let le = n_of_dec (next c) in let es = next_velems c in
     (match rebuild_root cfg es le with Some h -> hex_of_bytes h | None -> "ERR")
   | "vaudit1" -> let cfg = cfg_of (next c) in let h1 = next_bytes c in let h2 = next_bytes c in let ep = n_of_dec (next c) in
